@@ -100,7 +100,12 @@ MapDatum(d) ==
       [] d.t = "m" -> [d EXCEPT !.pairs = [i \in 1..Len(@) |-> <<MapDatum(@[i][1]), MapDatum(@[i][2])>>]]
       [] OTHER -> d
 
-\* an asset is <<policy, name, quantity>>; an output [addr, coin, assets, dhash, datum]
+\* an asset is <<policy, name, quantity>>; an output [addr, coin, assets, dhash, dwire, datum].
+\* dwire = the bytes of an inline datum as they are on the wire ("" when the output only refers to
+\* a datum by hash or has none; rpc side: Datum.original_cbor); dhash = the datum hash.  On the
+\* ledger side dhash = H[dwire] for an inline datum, H an uninterpreted function the harness
+\* supplies values of (blake2b-256 over the wire bytes - NOT over a re-encoding) and the trace
+\* spec learns; so `l.dhash = r.dhash` below demands rpc.datum.hash = H[wire bytes].
 SameOutput(l, r) ==
     /\ l.addr = r.addr
     /\ Exact(l.coin, r.coin)
@@ -109,16 +114,19 @@ SameOutput(l, r) ==
           /\ l.assets[i][1] = r.assets[i][1] /\ l.assets[i][2] = r.assets[i][2]
           /\ Exact(l.assets[i][3], r.assets[i][3])
     /\ l.dhash = r.dhash
+    /\ l.dwire = r.dwire
     /\ SameDatum(l.datum, r.datum)
 
 Range(s) == { s[i] : i \in 1..Len(s) }
 
-\* hash, inputs (a set on the ledger side), outputs in order, fee, validity
+\* hash, inputs (a set on the ledger side), outputs in order, witness datums, fee, validity
 Preserve(l, r) ==
     /\ l.hash = r.hash
     /\ Range(l.inputs) = Range(r.inputs) /\ Cardinality(Range(l.inputs)) = Len(r.inputs)
     /\ Len(l.outputs) = Len(r.outputs)
     /\ \A i \in 1..Len(l.outputs) : SameOutput(l.outputs[i], r.outputs[i])
+    /\ Len(l.wdatums) = Len(r.wdatums)                       \* witness-set datums, in order
+    /\ \A i \in 1..Len(l.wdatums) : SameDatum(l.wdatums[i], r.wdatums[i])
     /\ Exact(l.fee, r.fee)
     /\ l.start = r.start /\ l.ttl = r.ttl
 
@@ -128,7 +136,8 @@ MapOutput(o) == [o EXCEPT !.coin = MapU64(@.v), !.datum = MapDatum(@),
 RECURSIVE Dedup(_)
 Dedup(s) == IF s = <<>> THEN <<>>
             ELSE LET rest == Dedup(Tail(s)) IN IF Head(s) \in Range(rest) THEN rest ELSE <<Head(s)>> \o rest
-MapTx(t) == [t EXCEPT !.inputs = Dedup(@), !.outputs = [i \in 1..Len(@) |-> MapOutput(@[i])], !.fee = MapU64(@.v)]
+MapTx(t) == [t EXCEPT !.inputs = Dedup(@), !.outputs = [i \in 1..Len(@) |-> MapOutput(@[i])],
+                      !.wdatums = [i \in 1..Len(@) |-> MapDatum(@[i])], !.fee = MapU64(@.v)]
 
 ---------------------------------------------------------------------------
 \* ---- state machine: one action per mapper entry point ----
